@@ -104,7 +104,8 @@ def parse_result(path):
 
 
 def target_dir(package):
-    return os.path.join(WORK, "kani-" + package)
+    # VERIF_KANI_TARGET_SUFFIX: lets an experiment run next to a registered check without sharing its lock
+    return os.path.join(WORK, "kani-" + package + os.environ.get("VERIF_KANI_TARGET_SUFFIX", ""))
 
 
 def run_kani(package, harnesses, env_extra, timeout_s, jobs, log_path, verif_dir=KANI_DIR, extra_args=()):
